@@ -6,6 +6,7 @@ import (
 	"fmt"
 	"os"
 	"path/filepath"
+	"runtime"
 	"strings"
 	"time"
 )
@@ -134,11 +135,18 @@ func runC02(em *vEmitter, r *vRng) {
 		nconf = 8
 	}
 	for ci := 0; ci < nconf; ci++ {
-		ps := vGenParams(r, 3)
+		ps := vGenParams(r, 4)
 		// make sure both algorithms are present
 		ps[0] = vParam{ID: ps[0].ID, Scrypt: true, Key: r.bytes(32), Cost: 1, R: 1, P: 1}
 		ps[1] = vParam{ID: ps[1].ID, Time: 1, Memory: 8, Threads: 1, Length: 32}
-		x := &c02Ctx{em: em, r: r, ps: ps, def: ps[r.intn(3)].ID}
+		// and an argon2id set with more lanes than this machine has CPUs: the lane count is an input of
+		// the function, not a concurrency knob - a record written elsewhere must verify here
+		lanes := uint8(runtime.NumCPU() + 3 + ci)
+		if ci%2 == 1 {
+			lanes = 255
+		}
+		ps[3] = vParam{ID: ps[3].ID, Time: 1, Memory: 8 * uint32(lanes), Threads: lanes, Length: 24}
+		x := &c02Ctx{em: em, r: r, ps: ps, def: ps[r.intn(4)].ID}
 		for pi, p := range ps {
 			pw := []byte("correct horse")
 			sl := 16
